@@ -199,6 +199,33 @@ def run(tier, seed, model_ok):
         trip.append((tid, 'B', vlib.hx('\n'.join(t))))
         exp[tid] = ('macro', kind, called and (not guard or arg > 10), '\n'.join(t), None)
         kinds['.%s in a macro body (%s)' % (kind, 'assembled' if exp[tid][2] else 'not assembled')] += 1
+    # (c3) one faulty line INSIDE a macro body, behind what the body did before it (a segment switch, an .org, a nested
+    #      call, a taken conditional): the build must fail, naming the body line or a call line (the property does not
+    #      say which of the candidates)
+    for i in range(60 if tier == 'quick' else 600):
+        fault = rng.choice(['  frobnicate r1', '  nosuchmacro', '  ldi r1, 5', '  ldi r16, c15_undefined_sym', '  .error "stop"',
+                            '  .db 1, c15_undefined_sym', '  rjmp 99999', '  .set c15_v = c15_undefined_sym'])
+        before = rng.choice([[], ['  nop'], ['  nop', '.org 0x%x' % rng.choice([0x10, 0x40, 0x100])],
+                             ['.dseg', 'c15_buf%d: .byte 2' % i, '.cseg'], ['  nop', '.eseg', '  .db 1, 2', '.cseg'],
+                             ['  nop', '.dseg', '.org 0x%x' % rng.choice([0x80, 0x90]), '.cseg', '  nop'],
+                             ['.if 1', '  nop', '.endif'], ['  nop', '.cseg', '.org 0x20', '  nop', '.org 0x30']])
+        after = rng.choice([[], ['  nop'], ['.org 0x200', '  ret']])
+        nested = rng.random() < .4
+        t = ['  nop', '.macro c15_in'] + before + [fault] + after + ['.endm']
+        fl = 2 + len(before) + 1                                  # 1-based line of the faulty body line
+        cands = [fl]
+        if nested:
+            pre2 = rng.choice([[], ['  nop'], ['  nop', '.org 0x8', '  nop'], ['.dseg', '.byte 1', '.cseg']])
+            t += ['.macro c15_out'] + pre2 + ['  c15_in'] + ['.endm']
+            cands.append(len(t) - 1)
+        t += ['  nop'] * rng.randrange(0, 3)
+        t += ['  %s' % ('c15_out' if nested else 'c15_in')]
+        cands.append(len(t))
+        t += ['  ret']
+        tid = 'z%d' % i
+        trip.append((tid, 'B', vlib.hx('\n'.join(t))))
+        exp[tid] = ('macfault', fault.strip(), cands, '\n'.join(t), None)
+        kinds['fault inside a macro body (%s%s)' % ('behind a segment switch/.org' if any(x.startswith(('.org', '.dseg', '.eseg', '.cseg')) for x in before) else 'plain body', ', nested call' if nested else '')] += 1
     # (c2) the same message line assembled several times in a row (a macro called repeatedly): every time counts
     for i in range(6 if tier == 'quick' else 40):
         reps = rng.randrange(2, 5)
@@ -295,6 +322,14 @@ def run(tier, seed, model_ok):
             fatal = assembled and kind == 'error'
             if fatal != got.startswith('ERR'):
                 vio.append({'what': '.error inside a macro body must fail the build exactly when it is assembled (macro called, guard true)', 'source': text, 'impl': got[:120], 'expected': 'ERR' if fatal else 'OK', 'key': 'error-in-macro'})
+            continue
+        if e[0] == 'macfault':
+            _, fault, cands, text, _ = e
+            want = ' or '.join('ERR line=%d' % x for x in cands)
+            if not got.startswith('ERR'):
+                vio.append({'what': 'a program whose only fault is a line inside a called macro body builds', 'faulty_line': fault, 'line': cands, 'source': text, 'impl': got[:120], 'expected': want, 'key': 'fault-in-macro-body'})
+            elif got.split()[1] not in ['line=%d' % x for x in cands]:
+                vio.append({'what': 'the error for a faulty line inside a macro body names neither that line nor a call', 'faulty_line': fault, 'line': cands, 'source': text, 'impl': got[:120], 'expected': want, 'key': 'fault-in-macro-body'})
             continue
         if e[0] == 'repeat':
             _, count, kind, text, _ = e
